@@ -958,6 +958,8 @@ pub enum Associativity {
     /// `Both` means mathematically associative, like `+` or `*`
     Both,
     Right,
+    /// Not associative at all: operands of equal strength are parenthesized on both sides
+    None,
 }
 
 impl Associativity {
@@ -1029,6 +1031,11 @@ impl SQLExpression for BinaryOperator {
         use BinaryOperator::*;
         match self {
             Minus | Divide | Modulo => Associativity::Left,
+            // Comparisons are not associative: `a = (b = c)` is not `(a = b) = c`. Dialects
+            // also disagree on how a chain of them groups (SQLite binds `<` tighter than `=`,
+            // Postgres rejects `a < b < c`), so a comparison nested in a comparison is
+            // always parenthesized.
+            Gt | Lt | GtEq | LtEq | Eq | NotEq => Associativity::None,
             _ => Associativity::Both,
         }
     }
